@@ -84,6 +84,7 @@ func goBin() string {
 }
 
 type build struct {
+	engine  string
 	variant string
 	bin     string
 }
@@ -144,7 +145,8 @@ func main() {
 }
 
 func run(pc *propCfg, id, tier string, seed uint64, budget, nw int, replayFile, scratch string, start time.Time) int {
-	variants := pc.variants(tier)
+	stages := append([]*propCfg{pc}, pc.extra...)
+	var rp runner.Replay
 	if replayFile != "" {
 		if a, err := filepath.Abs(replayFile); err == nil {
 			replayFile = a
@@ -153,15 +155,32 @@ func run(pc *propCfg, id, tier string, seed uint64, budget, nw int, replayFile, 
 		if err != nil {
 			fatal2("read replay: %v", err)
 		}
-		var rp runner.Replay
 		if err := json.Unmarshal(b, &rp); err != nil {
 			fatal2("parse replay: %v", err)
 		}
-		variants = []string{rp.Variant}
+		var keep []*propCfg
+		for _, st := range stages {
+			if st.engine == rp.Engine || rp.Engine == "" {
+				keep = append(keep, st)
+				break
+			}
+		}
+		if len(keep) == 0 {
+			fatal2("replay file names engine %q which does not serve %s", rp.Engine, id)
+		}
+		stages = keep
 	}
-	builds, berr := buildEngine(pc, variants, scratch)
-	if berr != nil {
-		fatal2("build failed:\n%v", berr)
+	var builds []build
+	for _, st := range stages {
+		variants := st.variants(tier)
+		if replayFile != "" {
+			variants = []string{rp.Variant}
+		}
+		bs, berr := buildEngine(st, variants, scratch)
+		if berr != nil {
+			fatal2("build failed:\n%v", berr)
+		}
+		builds = append(builds, bs...)
 	}
 	if replayFile != "" {
 		return doReplay(pc, id, builds[0], replayFile, scratch)
@@ -189,7 +208,7 @@ func run(pc *propCfg, id, tier string, seed uint64, budget, nw int, replayFile, 
 		wg.Add(1)
 		go func(i int, j job) {
 			defer wg.Done()
-			out := filepath.Join(scratch, fmt.Sprintf("res-%s-%d.json", j.b.variant, j.worker))
+			out := filepath.Join(scratch, fmt.Sprintf("res-%s-%s-%d.json", j.b.engine, j.b.variant, j.worker))
 			env := append(os.Environ(),
 				"VERIF_MODE=search", "VERIF_PROP="+id, "VERIF_TIER="+tier, "VERIF_VARIANT="+j.b.variant,
 				"VERIF_SEED="+strconv.FormatUint(seed, 10), "VERIF_WORKER="+strconv.Itoa(j.worker),
@@ -218,7 +237,7 @@ func run(pc *propCfg, id, tier string, seed uint64, budget, nw int, replayFile, 
 		agg.SimNanos += r.SimNanos
 		agg.DetChecked += r.DetChecked
 		agg.DetMismatch = append(agg.DetMismatch, r.DetMismatch...)
-		byVariant[r.Variant] += r.Runs
+		byVariant[r.Engine+"/"+r.Variant] += r.Runs
 		for k, v := range r.Probes {
 			agg.Probes[k] += v
 		}
@@ -232,8 +251,8 @@ func run(pc *propCfg, id, tier string, seed uint64, budget, nw int, replayFile, 
 			agg.Samples = append(agg.Samples, r.Samples...)
 		}
 		for _, v := range r.Violations {
-			if !seen[v.Variant+"|"+v.Key] {
-				seen[v.Variant+"|"+v.Key] = true
+			if !seen[v.Engine+"|"+v.Variant+"|"+v.Key] {
+				seen[v.Engine+"|"+v.Variant+"|"+v.Key] = true
 				viols = append(viols, v)
 			}
 		}
@@ -250,7 +269,7 @@ func run(pc *propCfg, id, tier string, seed uint64, budget, nw int, replayFile, 
 	var lines []string
 	binOf := map[string]string{}
 	for _, b := range builds {
-		binOf[b.variant] = b.bin
+		binOf[b.engine+"|"+b.variant] = b.bin
 	}
 	for _, v := range viols {
 		kf := matchKnown(known, id, v.Key)
@@ -259,7 +278,7 @@ func run(pc *propCfg, id, tier string, seed uint64, budget, nw int, replayFile, 
 			continue
 		}
 		nViol++
-		h := sha256.Sum256([]byte(v.Variant + "|" + v.Key))
+		h := sha256.Sum256([]byte(v.Engine + "|" + v.Variant + "|" + v.Key))
 		path := filepath.Join(verifDir, "replays", fmt.Sprintf("%s-%s.json", id, hex.EncodeToString(h[:5])))
 		b, _ := json.MarshalIndent(v, "", " ")
 		_ = os.MkdirAll(filepath.Dir(path), 0o755)
@@ -271,7 +290,7 @@ func run(pc *propCfg, id, tier string, seed uint64, budget, nw int, replayFile, 
 		out := filepath.Join(scratch, "replay-"+hex.EncodeToString(h[:5])+".json")
 		env := append(os.Environ(), "VERIF_MODE=replay", "VERIF_PROP="+id, "VERIF_REPLAY="+path, "VERIF_VARIANT="+v.Variant, "VERIF_OUT="+out)
 		env = append(env, pc.extraEnv(tier)...)
-		rr, err := runWorker(binOf[v.Variant], env, out, 5*time.Minute)
+		rr, err := runWorker(binOf[v.Engine+"|"+v.Variant], env, out, 5*time.Minute)
 		switch {
 		case err != nil:
 			note = " replay_verified=false (" + err.Error() + ")"
